@@ -478,3 +478,39 @@ S('c03-fstring-template', ['C03', 'C05'], [(FMT,
     d = format_date(deletion_date)
     content = f"[Trash Info]\\nPath={p}\\nDeletionDate={d}\\n".encode('utf-8')""")],
   'template as f-string')
+
+# ------------------------------------------------------------------ C10
+OLDER = 'trashcli/empty/older_than.py'
+DAD = 'trashcli/empty/delete_according_date.py'
+F('c10-le', {'C10': ['R10.1']}, [(OLDER, "return deletion_date < limit_date", "return deletion_date <= limit_date")],
+  '<= instead of <')
+F('c10-hours', {'C10': ['R10.1']}, [(OLDER, "timedelta(days=days_ago)", "timedelta(hours=days_ago)")], 'hours instead of days')
+F('c10-no-subtraction', {'C10': ['R10.1']}, [(OLDER, "return deletion_date < limit_date", "return deletion_date < now_value")],
+  'compared against now')
+F('c10-undated-deleted', {'C10': ['R10.2']}, [(DAD, "            return False\n", "            return True\n")],
+  'undated entries are purged when DAYS is given')
+F('c10-none-compared', {'C10': ['R10.2']}, [(DAD,
+  "            if deletion_date is not None:\n                if older_than(parsed_days, now_value, deletion_date):\n                    return True",
+  "            if older_than(parsed_days, now_value, deletion_date):\n                return True")],
+  'None date reaches the comparison')
+F('c10-only-info', {'C10': ['R10.4'], 'C15': ['R15.2']}, [(EMPTIER,
+  "                    yield (path_of_backup_copy(trash_info_path))\n", "")],
+  'only the .trashinfo of an old entry is removed')
+F('c10-swapped-operands', {'C10': ['R10.1']}, [(OLDER, "return deletion_date < limit_date", "return limit_date < deletion_date")],
+  'operands swapped (purges the young entries)')
+S('c10-flipped', ['C10'], [(OLDER, "return deletion_date < limit_date", "return limit_date > deletion_date")], 'flipped comparison')
+S('c10-age-form', ['C10'], [(OLDER, "    limit_date = now_value - timedelta(days=days_ago)\n    return deletion_date < limit_date",
+  "    return now_value - deletion_date > timedelta(days=days_ago)")], 'age > delta form')
+
+# ------------------------------------------------------------------ C12
+FILTER = 'trashcli/rm/filter.py'
+F('c12-fnmatch', {'C12': ['R12.1']}, [(FILTER, "fnmatch.fnmatchcase(subject, self.pattern)", "fnmatch.fnmatch(subject, self.pattern)")], 'case-normalising matcher')
+F('c12-always-basename', {'C12': ['R12.2']}, [(FILTER, "subject = original_location if self.pattern[0] == '/' else basename", "subject = basename")], 'subject always the basename')
+F('c12-swapped', {'C12': ['R12.1']}, [(FILTER, "fnmatch.fnmatchcase(subject, self.pattern)", "fnmatch.fnmatchcase(self.pattern, subject)")], 'arguments swapped')
+F('c12-lower', {'C12': ['R12.1']}, [(FILTER, "fnmatch.fnmatchcase(subject, self.pattern)", "fnmatch.fnmatchcase(subject, self.pattern.lower())")], 'pattern lower-cased')
+F('c12-delete-unmatched', {'C12': ['R12.3']}, [('trashcli/rm/rm_cmd.py',
+  "                        if cmd.matches(original_location):\n                            trashcan.delete_trash_info_and_backup_copy(\n                                info_file)",
+  "                        if cmd.matches(original_location) or True:\n                            trashcan.delete_trash_info_and_backup_copy(\n                                info_file)")],
+  'deletion not guarded by the match')
+F('c12-selection-inverted', {'C12': ['R12.2']}, [(FILTER, "subject = original_location if self.pattern[0] == '/' else basename", "subject = basename if self.pattern[0] == '/' else original_location")], 'selection inverted')
+S('c12-startswith', ['C12'], [(FILTER, "self.pattern[0] == '/'", "self.pattern.startswith('/')")], 'startswith form')
